@@ -184,11 +184,16 @@ def run_syscall_case(case, ctx):
 		finally:
 			loaded.close()
 		points = range(1, count + 1) if count <= case.get('max_points', 60) else sorted(set(list(range(1, 21)) + list(range(count - 39, count + 1))))
-		refused = ok = 0
+		refused = ok = unstable = 0
 		for n in points:
 			if os.path.exists(path):
 				os.unlink(path)
 			r = _strace(wargs, path, n)
+			if r.returncode == 0:
+				# this run made fewer write calls on the file than the dry run did (the count is not a constant of the writer):
+				# the write completed, there is no crash point to look at
+				unstable += 1
+				continue
 			if r.returncode != -9 and r.returncode != 137:
 				raise HarnessError(f'writer under strace was not killed at syscall {n} of {count}: rc {r.returncode}')
 			one = {'kind': 'syscall_point', 'payload': p, 'point': n}
@@ -220,8 +225,118 @@ def run_syscall_case(case, ctx):
 		shutil.rmtree(d, ignore_errors=True)
 
 
+def _shim(ctx):
+	"""Build (once per worker) the LD_PRELOAD shim that tears a write: returns its path or None if no C compiler is available."""
+	import subprocess, shutil as _sh
+	if 'c19_shim' in ctx.cache:
+		return ctx.cache['c19_shim']
+	so = None
+	cc = _sh.which('gcc') or _sh.which('cc')
+	if cc:
+		verif = os.path.dirname(os.path.dirname(os.path.abspath(__file__)))
+		out = os.path.join(ctx.tmpdir, 'cutwrite.so')
+		r = subprocess.run([cc, '-shared', '-fPIC', '-O2', '-o', out, os.path.join(verif, 'vlib', 'cutwrite.c'), '-ldl'], stdout=subprocess.PIPE, stderr=subprocess.STDOUT)
+		if r.returncode == 0:
+			so = out
+	ctx.cache['c19_shim'] = so
+	return so
+
+
+def run_byte_case(case, ctx):
+	"""Crash points INSIDE write system calls: a fresh writer process whose writes to the output file are cut after a total of
+	N bytes (the write in progress is torn, then the process is SIGKILLed), for N at the start, just inside, in the middle and just
+	before the end of every write the complete run makes."""
+	import json, subprocess, sys
+	import numpy as np
+	from gambit.sigs.base import load_signatures
+	so = _shim(ctx)
+	if so is None:
+		return {'nontrivial': False, 'classes': ['byte_level_unavailable(no C compiler)']}
+	p = case['payload']
+	d = ctx.fresh_dir('c19byte')
+	try:
+		pj = os.path.join(d, 'payload.json')
+		json.dump(p, open(pj, 'w'))
+		path = os.path.join(d, 'out.gs')
+		log = os.path.join(d, 'writes.log')
+		verif = os.path.dirname(os.path.dirname(os.path.abspath(__file__)))
+		wargs = [sys.executable, os.path.join(verif, 'vlib', 'crash_writer.py'), pj, path]
+		env = dict(os.environ, LD_PRELOAD=so, VERIF_CUT_PATH=path, VERIF_CUT_LOG=log)
+		env.pop('VERIF_CUT_BYTES', None)
+		r = subprocess.run(wargs, env=env, stdout=subprocess.PIPE, stderr=subprocess.STDOUT, timeout=600)
+		if r.returncode != 0 or not os.path.exists(log):
+			raise HarnessError(f'dry run of the writer under the write-cutting shim failed ({r.returncode}): {r.stdout.decode("utf-8", "replace")[-500:]}')
+		lens = [int(x) for x in open(log).read().split()]
+		if not lens:
+			raise HarnessError('the shim saw no write to the output file')
+		obj, spec, arrays, exp_ids, exp_meta = P.build(np, p)
+		loaded = load_signatures(path)
+		try:
+			P.compare_loaded(np, loaded, p, spec, arrays, exp_ids, exp_meta, Violation, case)
+		finally:
+			loaded.close()
+		cuts = set()
+		cum = 0
+		for ln in lens:
+			cuts.update({cum, cum + 1, cum + ln // 2, cum + ln - 1} if ln > 2 else {cum})
+			if ln > 64:
+				cuts.update(cum + ln * j // 16 for j in range(1, 16))       # large writes (a whole file image, a data block) torn at 16 places
+			cum += ln
+		cuts = sorted(c for c in cuts if 0 <= c < cum)
+		mp = case.get('max_points', 40)
+		if len(cuts) > mp:
+			import random as _random
+			cuts = sorted(_random.Random(case.get('cut_seed', 0) + len(cuts)).sample(cuts, mp))
+		refused = ok = 0
+		env.pop('VERIF_CUT_LOG', None)
+		for c in cuts:
+			if os.path.exists(path):
+				os.unlink(path)
+			env['VERIF_CUT_BYTES'] = str(c)
+			r = subprocess.run(wargs, env=env, stdout=subprocess.PIPE, stderr=subprocess.STDOUT, timeout=600)
+			if r.returncode not in (-9, 137):
+				raise HarnessError(f'writer was not killed after {c} of {cum} bytes: rc {r.returncode} {r.stdout.decode("utf-8", "replace")[-300:]}')
+			one = {'kind': 'byte_point', 'payload': p, 'point': c}
+			if not os.path.exists(path):
+				refused += 1
+				continue
+			try:
+				loaded = load_signatures(path)
+			except Exception:
+				refused += 1
+				continue
+			try:
+				try:
+					P.compare_loaded(np, loaded, p, spec, arrays, exp_ids, exp_meta, Violation, one)
+				except Violation as v:
+					raise Violation('torn_write_loaded', f'writer killed after {c} of the {cum} bytes it writes to the file (inside one of its {len(lens)} writes): '
+					                f'the file left behind loads as a different collection: {v.msg}', one)
+				ok += 1
+			finally:
+				try:
+					loaded.close()
+				except Exception:
+					pass
+		return {'evals': len(cuts), 'nontrivial_count': len(cuts), 'nontrivial': True,
+		        'classes': ['byte_level', 'path=' + ('array' if p['container'].endswith('array') else 'list'), f'compression={p["compression"]}'] + (['torn_write_leaves_complete_file'] if ok else []),
+		        'writes': len(lens), 'bytes': cum}
+	finally:
+		import shutil
+		shutil.rmtree(d, ignore_errors=True)
+
+
 def run_case(case, ctx):
 	import numpy as np
+	if case['kind'] in ('byte_points', 'byte_point'):
+		done = ctx.cache.get('c19_byte_cases', 0)
+		if case['kind'] == 'byte_point':
+			c = {'kind': 'byte_points', 'payload': case['payload'], 'max_points': 10 ** 6}
+			return run_byte_case(c, ctx)
+		if ctx.tier == 'quick' and done >= 1:
+			case = {'kind': 'all_points', 'payload': case['payload'], 'preexisting': None, 'how': 'sigkill'}
+		else:
+			ctx.cache['c19_byte_cases'] = done + 1
+			return run_byte_case(case, ctx)
 	if case['kind'] == 'syscall_points':
 		# a system-call-level case costs one fresh interpreter under strace per crash point (up to 30 s): at most 2 per worker
 		# in the quick tier (Hypothesis repeats rare branches in bursts); further ones run at library level instead
@@ -284,6 +399,9 @@ def run_case(case, ctx):
 
 @st.composite
 def gen_case(draw, tier):
+	if draw(st.integers(0, 15 if tier == 'thorough' else 19)) == 7:
+		return {'kind': 'byte_points', 'payload': draw(P.payload(max_sigs=8, allow_big=False, min_sigs=2, allow_medium=True, medium_rate=2)), 'max_points': 80 if tier == 'thorough' else 40,
+		        'cut_seed': draw(st.integers(0, 1000))}
 	if draw(st.integers(0, 15 if tier == 'thorough' else 39)) == (15 if tier == 'thorough' else 39):
 		return {'kind': 'syscall_points', 'payload': draw(P.payload(max_sigs=8, allow_big=False)), 'max_points': 60 if tier == 'thorough' else 30}
 	how = draw(st.sampled_from(['sigkill', 'sigkill', 'sigint', 'sigterm']))
